@@ -119,6 +119,21 @@ pub fn gen(o: &Opts, sink: &mut dyn FnMut(Vec<i64>, String)) {
         c.push(2);
         put!(c);
     }
+    // ... nor does what the unit last reported about itself: a locked / unlocked status frame from the unit before and
+    // between the commands; resume, changes and the closing stop-all still all go out
+    for j in 0..(if o.tier_thorough { 200u64 } else { 24 }) {
+        let mut rng = Rng::new(o.seed, 15_600 + j);
+        let mut c = vec![1000]; c.extend(crate::c10::config(&[(1, 0x4a, None, 0)]));
+        c.push(5); c.push(2);
+        let status = |locked: i64| -> Vec<i64> { vec![1, (crate::units::id_of(6, 65288, 0, 0x4a) | 0x8000_0000) as i64, 8, 0x14, 255, locked, 255, 0, 0, 0, 0] };
+        c.extend(status((j % 2) as i64));
+        if rng.chance(1, 2) { c.push(2); }
+        c.extend([3, 1]);                                   // resume-all
+        for q in 0..(1 + rng.below(3)) { c.extend([3, 5, 100 + q as i64]); if rng.chance(1, 3) { c.extend(status(rng.below(2) as i64)); } }
+        c.extend([3, 0]);                                   // the closing stop-all
+        c.push(2);
+        put!(c);
+    }
     // ... and neither does a unit that has been silent for longer than its receive timeout (150 ms): commands
     // accepted while the unit is considered offline still go out, the stop-all above all
     for j in 0..(if o.tier_thorough { 60u64 } else { 8 }) {
